@@ -81,6 +81,9 @@ def generate(rng, tier):
             alt = rng.choice([nm, nm.replace(b"/", b"//", 1), b"./" + nm, nm.replace(b"/", b"/./", 1)])
             e2 = (alt, dgen.size(rng) if sz is not None else None, [(a, dgen.hexhash(rng)) for a, _ in sums][: rng.randint(0, 3)] or sums[:1])
             cases.append(Case("di.build", [enc(rcs)] + [ent_arg(*e) for e in ents] + [ent_arg(*e2)], meta={"nt": True, "api2": True}))
+    # checksum texts given to the API may hold any characters (they are Rust Strings): written as their UTF-8 bytes
+    for h in ("\u00e9", "\u212a", "\U0001F600", "\u0085x", "\u00a0", "abc\u3000"):
+        cases.append(Case("di.build", ["N", "%s~1~3=%s" % (enc(b"f"), enc(h))], meta={"nt": True, "api2": True}))
     return cases
 
 
